@@ -209,6 +209,7 @@ def txStep (s : DState) (line : String) : DState × String :=
   | ["recover_mem", now] => match now.toNat? with
       | some now => coordAns s (recoverMem s.coord now) | none => bad
   | ["decisions"] => coordAns s (s.coord, .decisions (pendingDecisions s.coord))
+  | ["truncate"] => coordAns s ({ s.coord with log := [] }, .ok)
   | ["force", id, b] => match id.toNat?, b.toNat? with
       | some id, some b => coordAns s (forceResolve s.coord id (b != 0)) | _, _ => bad
   | ["recover_live", now] => match now.toNat? with
